@@ -33,7 +33,8 @@ _PRE = ('import sys, athlib\nyear = YEAR\nage = AGE\ng = G\nd = {d}\nform = FORM
         "def spell(d):\n    return str(d) if form == 'bare' else '%dK' % (d // 1000) if form == 'K' else '%d.%dK' % (d // 1000, (d % 1000) // 100) if form == 'K1' else '%dM' % (d // 1609)\n"
         "code = spell(d)\n"
         'lo, hi = LO, HI\n'
-        'def three(c):\n    return ag.calculate_factor(g, age, c), ag.world_best(g, c)\n')
+        'def three(c):\n    return ag.calculate_factor(g, age, c), ag.world_best(g, c)\n'
+        'HISTORY')
 SCRIPTS_T = {
     'raises': _PRE + "try:\n    r = three(code); bad = False\nexcept Exception as e:\n    r = repr(e); bad = True\nprint(year, g, 'age', age, repr(code), '->', r)\nsys.exit(1 if bad else 0)\n",
     'factor-between': _PRE + ("f, b = three(code)\nfs, fl = (ag.calculate_factor(g, age, lo), ag.calculate_factor(g, age, hi)) if lo and hi else (None, None)\n"
@@ -55,8 +56,10 @@ def grader(year):
     return athlib.ag2015 if year == 2015 else athlib.ag2023
 
 
-def scripts(year, g, age, form, lo, hi):
-    return {k: v.replace('YEAR', repr(year)).replace('AGE', repr(age)).replace('FORM', repr(form)).replace('LO, HI', '%r, %r' % (lo, hi)).replace('g = G', 'g = %r' % g)
+def scripts(year, g, age, form, lo, hi, far=None):
+    hist = '' if far is None else ('# earlier questions to the same grader object: a distance of this segment, then a far-away tabulated event\n'
+                                   'for c_ in %r:\n    try:\n        three(c_)\n    except Exception:\n        pass\n' % (far,))
+    return {k: v.replace('HISTORY', hist).replace('YEAR', repr(year)).replace('AGE', repr(age)).replace('FORM', repr(form)).replace('LO, HI', '%r, %r' % (lo, hi)).replace('g = G', 'g = %r' % g)
             for k, v in SCRIPTS_T.items()}
 
 
@@ -86,7 +89,7 @@ def vrange(form, dlo, dhi):
     return (lo_v, hi_v) if lo_v <= hi_v else None
 
 
-def body_segment(year, g, age, form, dlo, dhi, lo_code, hi_code):
+def body_segment(year, g, age, form, dlo, dhi, lo_code, hi_code, far=None):
     def body(R):
         eng = E.cur()
         ag = grader(year)
@@ -96,6 +99,15 @@ def body_segment(year, g, age, form, dlo, dhi, lo_code, hi_code):
         d = v * mult
         ins = {'d': d}
         R.partial = {'inputs': ins}
+        if far is not None:
+            # history clause: the same grader object was asked about one concrete distance of this segment, then about a far-away
+            # tabulated event, before the questions of the clauses (scratch attributes such as _fx / _fx1 / _pfac or a remembered position must not leak)
+            for c_ in far:
+                try:
+                    ag.calculate_factor(g, age, c_)
+                    ag.world_best(g, c_)
+                except Exception:
+                    pass
         fs = ag.calculate_factor(g, age, lo_code) if lo_code else None
         fl = ag.calculate_factor(g, age, hi_code) if hi_code else None
         bs = ag.world_best(g, lo_code) if lo_code else None
@@ -149,13 +161,14 @@ def dhi_over_dlo_guard(ag, g, lo_code, hi_code):
 
 
 def worker(job):
-    year, g, age, form, dlo, dhi, lo_code, hi_code = job
+    year, g, age, form, dlo, dhi, lo_code, hi_code = job[:8]
+    far = job[8] if len(job) > 8 else None
     res = JobResult()
-    R = hc.Runner(res, plain(), 'athlib.wma.agegrader.AgeGrader', scripts(year, g, age, form, lo_code, hi_code), max_paths=50000, deadline=time.time() + 1200,
+    R = hc.Runner(res, plain(), 'athlib.wma.agegrader.AgeGrader', scripts(year, g, age, form, lo_code, hi_code, far), max_paths=50000, deadline=time.time() + 1200,
                   r_axioms=('mono', 'paired', 'err'))
-    label = '%s %s age %s %s %s..%s (%s - %s)' % (year, g, age, form, dlo, dhi, lo_code, hi_code)
+    label = '%s %s age %s %s %s..%s (%s - %s)' % (year, g, age, form, dlo, dhi, lo_code, hi_code) + ('' if far is None else ' after %s and %s' % far)
     try:
-        R.explore(body_segment(year, g, age, form, dlo, dhi, lo_code, hi_code), label)
+        R.explore(body_segment(year, g, age, form, dlo, dhi, lo_code, hi_code, far), label)
     except E.Budget as e:
         res.inconclusive.append('%s: %s' % (label, e))
     res.extra['segments'] = 1
@@ -195,6 +208,10 @@ def run(chk, only=None):
         k1 = [j for j in jobs if j[0] == 2023 and j[3] == 'K1']
         mj = [j for j in jobs if j[0] == 2023 and j[3] == 'M']
         jobs = [j for j in jobs if j[0] == 2023 and j[3] == 'bare'] + kj[::3] + k1[1::3] + mj[2::3]
+    # history variants: every fourth bare-number segment (thorough: every bare-number segment) once more after two earlier questions
+    bare = [j for j in jobs if j[3] == 'bare' and j[6] and j[7]]
+    for j in (bare[::4] if quick else bare):
+        jobs.append(j + ((str((j[4] + j[5]) // 2), 'MAR' if j[5] < 5000 else '100'),))
     inverted = sorted({'%s %s %s-%s' % (j[0], j[1], j[6], j[7]) for j in jobs if j[6] and j[7] and not speeds_ordered(grader(j[0]), j[1], j[6], j[7])})
     chk.extra['segments_with_inverted_speeds_best_increasing_not_asserted'] = inverted
     if only:
